@@ -1,5 +1,65 @@
 # sub-process wrapper: stub pandoc (binary absent in the sandbox), then run the real CLI entry point
-import pypandoc
+#
+# VERIF_FAKE_EPOCH=<seconds since the epoch> (optional, used by C10): every Python-visible source of "now" in THIS
+# process answers with that instant (time.time/time_ns/gmtime/localtime/ctime/asctime/strftime, datetime.date.today,
+# datetime.datetime.now/utcnow/today).  Installed before anything of the generator (or of its dependencies) is imported,
+# so `from datetime import date` / `from time import time` in any later module bind the shifted versions as well.
+# Unset (every other caller): nothing is touched.
+import os as _os
+
+_FAKE = _os.environ.get("VERIF_FAKE_EPOCH")
+if _FAKE:
+    def _install_clock(fake):
+        import time as _time
+        import datetime as _dt
+        real = {n: getattr(_time, n) for n in ("gmtime", "localtime", "ctime", "strftime", "asctime")}
+        _time.time = lambda: fake
+        _time.time_ns = lambda: int(fake) * 10 ** 9
+        _time.gmtime = lambda secs=None: real["gmtime"](fake if secs is None else secs)
+        _time.localtime = lambda secs=None: real["localtime"](fake if secs is None else secs)
+        _time.ctime = lambda secs=None: real["ctime"](fake if secs is None else secs)
+        _time.asctime = lambda *t: real["asctime"](*(t or (real["localtime"](fake),)))
+        _time.strftime = lambda fmt, *t: real["strftime"](fmt, *(t or (real["localtime"](fake),)))
+        real_date, real_datetime = _dt.date, _dt.datetime
+
+        class _Meta(type):
+            # objects/classes built by C code (or before the switch) are still dates/datetimes for isinstance/issubclass
+            def __instancecheck__(cls, obj):
+                return isinstance(obj, cls._real)
+
+            def __subclasscheck__(cls, sub):
+                return issubclass(sub, cls._real)
+
+        class date(real_date, metaclass=_Meta):
+            _real = real_date
+
+            @classmethod
+            def today(cls):
+                d = real_datetime.fromtimestamp(fake)
+                return real_date(d.year, d.month, d.day)
+
+        class datetime(real_datetime, metaclass=_Meta):
+            _real = real_datetime
+
+            @classmethod
+            def now(cls, tz=None):
+                return real_datetime.fromtimestamp(fake, tz)
+
+            @classmethod
+            def utcnow(cls):
+                return real_datetime.fromtimestamp(fake, _dt.timezone.utc).replace(tzinfo=None)
+
+            @classmethod
+            def today(cls):
+                return real_datetime.fromtimestamp(fake)
+
+        for c in (date, datetime):
+            c.__module__, c.__qualname__ = "datetime", c.__name__
+        _dt.date, _dt.datetime = date, datetime
+
+    _install_clock(float(_FAKE))
+
+import pypandoc  # noqa: E402
 
 
 def _fake(text, to=None, format=None, extra_args=(), **kw):
